@@ -203,6 +203,7 @@ class _CoolMax(drive.Observer):
         # nominal pin peaks: the largest value of each pin temperature
         # location at the end of any step in the bundle
         self.runP = [{k: -np.inf for k in PIN_KEYS} for _ in r.assemblies]
+        self.rowP = [{k: None for k in PIN_KEYS} for _ in r.assemblies]
 
     def _look(self):
         # every region of the assembly: the step that ends a region is
@@ -217,8 +218,11 @@ class _CoolMax(drive.Observer):
                         getattr(reg, 'pin_model', None) is not None:
                     tp = np.asarray(reg.pin_temps, dtype=float)
                     for j, k in enumerate(PIN_KEYS):
-                        self.runP[i][k] = max(self.runP[i][k],
-                                              float(np.max(tp[:, 4 + j])))
+                        jj = int(np.argmax(tp[:, 4 + j]))
+                        if float(tp[jj, 4 + j]) > self.runP[i][k]:
+                            self.runP[i][k] = float(tp[jj, 4 + j])
+                            # radial profile of that pin at that height
+                            self.rowP[i][k] = [float(x) for x in tp[jj]]
 
     def begin(self, rec):
         self.rec = rec
@@ -243,6 +247,8 @@ def analyze_trace(args):
                     's1,Statistical,1.05,1.4,1.0,1.2,1.1']
             with open(str(d / 'statonly.csv'), 'w') as fh:
                 fh.write('\n'.join(rows) + '\n')
+            write_table(str(d / 'gen.csv'), random.Random(7))
+            write_table(str(d / 'genx.csv'), random.Random(11), expr=True)
             inp, r = cases.build(dassh, case, str(d))
             # the nominal peak coolant temperature is the largest coolant
             # temperature seen at the end of any step of the sweep (kept
@@ -268,10 +274,25 @@ def analyze_trace(args):
                         continue
                     row = peak_temps[k][asm_ids[k].index(a.id)]
                     hot.append(qt(row[-1]))
+                    # what the stated method gives for the table, confidence
+                    # levels and location of the request, from the rises of
+                    # the nominal peak as the recorder saw it (with unity
+                    # subfactors: the nominal peak itself)
+                    ai = r.assemblies.index(a)
+                    hreq = next(h for h in case['types'][a.name]['Hotspot']
+                                .values() if h.get('temperature') == k)
+                    T_in = float(case.get('inlet', r.inlet_temp))
                     if k == 'coolant':
-                        peak.append(qt(ob.run[r.assemblies.index(a)]))
+                        temps = [T_in, ob.run[ai]]
                     else:
-                        peak.append(qt(ob.runP[r.assemblies.index(a)][k]))
+                        last = {'clad_od': 5, 'clad_mw': 6, 'clad_id': 7,
+                                'fuel_od': 8, 'fuel_cl': 9}[k]
+                        temps = [T_in] + list(ob.rowP[ai][k][3:last])
+                    dT_ = np.diff(np.array(temps, dtype=float))[None, :]
+                    want_, _, _ = stated_method(
+                        str(d / hreq['subfactors']), k, dT_, T_in,
+                        hreq['input_sigma'], hreq['output_sigma'])
+                    peak.append(qt(want_[0, -1]))
                 ev.append({'e': 'Analyze', 'loc': k, 'hot': hot, 'peak': peak,
                            'ids': int(sorted(asm_ids[k]) == want_ids),
                            'tol': 2})
@@ -309,6 +330,15 @@ def analyze_cases(rng):
             for h in t['Hotspot'].values():
                 h.update(subfactors='statonly.csv', output_sigma=0)
         out.append((label + '-out0-statonly', c0))
+        # real tables (numbers; expressions in the rise) at the usual
+        # confidence levels: every location with its own columns
+        for tab, io in (('gen.csv', (3, 2)), ('genx.csv', (2, 3))):
+            c1 = copy.deepcopy(c)
+            for t in c1['types'].values():
+                for h in t['Hotspot'].values():
+                    h.update(subfactors=tab, input_sigma=io[0],
+                             output_sigma=io[1])
+            out.append((label + '-' + tab[:-4], c1))
     # power deposited above the bundles (un-rodded region above the rods
     # carrying the larger share): the coolant keeps heating there, and the
     # nominal peak coolant temperature is reached above the bundle
